@@ -44,7 +44,7 @@ KIND_NAMES = ("sub", "list", "set", "dict", "tuple1", "tuple2", "union2", "union
 BINARY_KINDS = (K_DICT, K_TUPLE2, K_UNION2)
 N_SUB = 16
 N_EXTRA = 13
-N_CLASSES = 21
+N_CLASSES = 23
 
 
 def _towerless_type_system(name: str) -> TypeSystem:
@@ -74,7 +74,9 @@ class Universe:
         atoms = tuple(getattr(m, n) for n in _U_ATOMS)
         more = tuple(getattr(m, n) for n in _U_MORE)
         # class table for the class-level law (bare collections only occur here)
-        self.classes = (*atoms, int, float, bool, str, object, complex, bytes, *more, list, set, dict)
+        # two nested classes with the same simple name and different qualified names (only in the class table)
+        nested = (m._Left.Meta, m._Right.Meta)  # noqa: SLF001
+        self.classes = (*atoms, int, float, bool, str, object, complex, bytes, *more, list, set, dict, *nested)
         assert len(self.classes) == N_CLASSES
         self.sub = tuple(self._sub_table(ts) for ts in self.systems)
         self.extra = tuple(self._extra_table(ts) for ts in self.systems)
